@@ -456,6 +456,9 @@ def plan(prop, tier, seed, find):
         limk2 = dict(max_paths=2000, max_secs=30) if tier == "quick" else dict(max_paths=40000, max_secs=900)
         for k in range(14 if tier == "quick" else 48):
             b.append(P(kind="knap", dd=DD3[k % 3], cache=1, dom=("partial" if k % 4 == 3 else "full"), width="1,2", fringe=("nodup" if k % 5 == 4 else "simple"), n=5, nsym=4, seed=base + 1 + k, props="C10", **limk2))
+        # bounded copies (non-binary domains), frontier cut-set, cache on: exact nodes below the first merged layer are cached
+        for k in range(10 if tier == "quick" else 40):
+            b.append(P(kind="knap", dd=("frontier" if k % 3 != 2 else "pooled"), cache=1, dom="full", width="2,3", fringe=("nodup" if k % 4 == 3 else "simple"), n=4, nsym=4, copies=2, seed=base + 100 + k, props="C10", **limk2))
         return dict(engine="symx", bundles=b, prefixes=["C10:"], vacuity=dict(dominated=1, explored_ge2=1), functions=["ddo::SimpleDominanceChecker::{new, is_dominated_or_insert, cmp}", "ddo::Dominance::{partial_cmp, cmp} (Kani, [isize;3])"],
                     bounds="sequences of 3 (thorough 4) queries + 2 probes, key pattern seeded (same / different / no key), 2 coordinates and the value of every query symbolic in +-100, with and without value; reference keeps every recorded state; solver level: 4-item knapsacks (seeded weights/capacity, 3 symbolic profits in -50..100) with the rule 'more capacity and more value dominates' on all layers and on even layers only, all diagram types, cache on/off, widths 1-2",
                     nontrivial=("decided sequence in which at least one query was reported dominated", lambda r: r["notes"].get("dominated", 0) > 0), kani=["C10"])
